@@ -76,6 +76,12 @@ def make_cases(r, tier):
             cfg = ["%s=%s" % (o["name"], lx.value_for(r, o))]
         elif fam == 1:
             cfg = lx.ws_config(r, r.choice([5, 20, 50]), aggressive=True)
+        elif fam == 2 and i % 8 == 2:
+            # the brace and parenthesis removers/adders all at once: the options whose mistakes change meaning silently
+            v = r.choice(["remove", "add"])
+            cfg = ["mod_full_brace_if=%s" % v, "mod_full_brace_for=%s" % v, "mod_full_brace_while=%s" % v, "mod_full_brace_do=%s" % v,
+                   "mod_paren_on_return=%s" % r.choice(["add", "remove"]), "mod_full_paren_if_bool=%s" % r.choice(["true", "false"]),
+                   "mod_remove_extra_semicolon=true", "mod_case_brace=%s" % r.choice(["add", "remove"])]
         elif fam == 2:
             cfg = c04.mod_config(r) + lx.ws_config(r, 5)
         else:
